@@ -30,141 +30,24 @@ def _const_dict(node):
 def run(ck, ctx):
     _semantic(ck, ctx)
     n_bad = len([o for o in ck.obligations if not o.ok])
-    try:
-        _structural(ck, ctx)
-    except AnalysisError as e:
-        # the function was restructured; its behaviour on the representative flat results is what the property describes
-        ck.note(f"structural rules not applicable to the current shape of the regrouping function ({e}); decided by O-group alone")
+    _structural(ck, ctx)
     from ..rules.fragments import run_fragment
     run_fragment(ck, ctx, "entities", tier=ck.tier, only_rules={"O-final"})
 
 
 def _structural(ck, ctx):
+    """what is decided from the shape of the code: who may read the flag, and that every entity kind the grammar can produce carries
+    a marker the regrouping knows.  (How group_by_type_result itself is written is NOT looked at: its behaviour is decided by
+    evaluating it - O-group / O-run.)"""
     m = ctx.model
     f = m.func("simple_ddl_parser.output.core:Output.group_by_type_result")
     ck.explanation = (
-        "E1 + E5 on Output.group_by_type_result / Output.format / Parser.run. The bucket literal holds the six always-present "
-        "buckets as empty lists and only `comments` can be deleted; the marker -> bucket table equals the documented mapping; the "
-        "regrouping loop visits every item of the flat result once, in order, and for the first marker key the item carries "
-        "appends the item itself (comments: extends with the texts) to the bucket mapped from that same key, then leaves the "
-        "marker loop; buckets grow by append / extend only; group_by_type is consulted only after the flat list is complete; "
-        "every marker key has a writer in the grammar actions / the SET handler and the entity kinds of the grammar carry one.")
-    assigns = {}
-    for n in ast.walk(f.node):
-        if isinstance(n, ast.Assign) and len(n.targets) == 1 and isinstance(n.targets[0], ast.Name) and isinstance(n.value, ast.Dict):
-            assigns[n.targets[0].id] = n
-    # ---- which dict literal is the bucket table and which the marker map: by use
-    outer = [n for n in f.node.body if isinstance(n, ast.For) and any(isinstance(x, ast.For) for x in n.body)]
-    if len(outer) != 1:
-        raise AnalysisError("anchor vanished: the regrouping loop of Output.group_by_type_result")
-    outer = outer[0]
-    inner = [n for n in outer.body if isinstance(n, ast.For)]
-    ck.ob("T-GROUP.loop", "outer loop walks self.final_result", access_path(outer.iter) == "self.final_result" and isinstance(outer.target, ast.Name),
-          f"iterable {ast.unparse(outer.iter)}: every entity of the flat list must be visited, in order", f.loc(outer))
-    if len(inner) != 1 or not isinstance(inner[0].iter, ast.Name) or inner[0].iter.id not in assigns:
-        raise AnalysisError("anchor vanished: the marker loop of Output.group_by_type_result")
-    inner = inner[0]
-    ck.ob("T-GROUP.loop", "outer loop body is the marker loop only", len(outer.body) == 1 and not outer.orelse,
-          "anything else in the loop body could skip or transform items", f.loc(outer))
-    item = outer.target.id if isinstance(outer.target, ast.Name) else "?"
-    keyvar = inner.target.id if isinstance(inner.target, ast.Name) else "?"
-    mapname = inner.iter.id
-    keys_map = _const_dict(assigns[mapname].value)
-    if keys_map is None or not all(isinstance(v, ast.Constant) for v in keys_map.values()):
-        raise AnalysisError("marker map is not a literal of string constants")
-    keys_map = {k: v.value for k, v in keys_map.items()}
-    for kind, bucket in KIND_BUCKET.items():
-        ck.ob("T-GROUP.map", f"marker `{kind}` -> bucket `{bucket}`", keys_map.get(kind) == bucket,
-              f"the marker table maps {kind!r} to {keys_map.get(kind)!r}; entities of that kind would be lost or land in the "
-              "wrong bucket", f.loc(assigns[mapname]))
-    for k in keys_map:
-        if k not in KIND_BUCKET:
-            ck.ob("T-GROUP.map", f"extra marker `{k}`", False,
-                  f"marker {k!r} is not an entity kind of the documented output: an entity carrying it (before its own marker in "
-                  "iteration order) would be misfiled", f.loc(assigns[mapname]))
-    order = list(keys_map)
-    ck.ob("T-GROUP.map", "the generic markers `value` / `comments` are tested after every *_name marker",
-          set(order[-2:]) == {"value", "comments"},
-          f"marker order {order}: the first marker found decides, and schema / database entities carry free-form option keys",
-          f.loc(assigns[mapname]))
-    # ---- the bucket literal
-    bucket_names = [n for n in assigns if n != mapname]
-    if len(bucket_names) != 1:
-        raise AnalysisError("anchor vanished: the bucket literal of Output.group_by_type_result")
-    bname = bucket_names[0]
-    buckets = _const_dict(assigns[bname].value)
-    for b in ALWAYS:
-        v = buckets.get(b) if buckets else None
-        ck.ob("T-GROUP.buckets", f"bucket `{b}` starts as an empty list", isinstance(v, ast.List) and not v.elts,
-              "documented buckets are present even when empty", f.loc(assigns[bname]))
-    for b, v in (buckets or {}).items():
-        if b not in ALWAYS and b != "comments":
-            ck.ob("T-GROUP.buckets", f"unexpected pre-populated bucket `{b}`", False,
-                  "tablespaces / databases appear only when present", f.loc(assigns[bname]))
-    dels = [n for n in ast.walk(f.node) if isinstance(n, ast.Delete)]
-    pops = [n for n in ast.walk(f.node) if isinstance(n, ast.Call) and isinstance(n.func, ast.Attribute) and n.func.attr in ("pop", "popitem", "clear")
-            and access_path(n.func.value) == bname]
-    for d in dels:
-        for t in d.targets:
-            ok = (isinstance(t, ast.Subscript) and access_path(t.value) == bname and isinstance(t.slice, ast.Constant)
-                  and t.slice.value == "comments")
-            atoms = guard_atoms(f.node, d)
-            ok = ok and atoms == [(f"{bname}['comments']", False)]
-            ck.ob("T-GROUP.buckets", f"del {ast.unparse(t)}", ok,
-                  f"only the empty `comments` bucket may be removed (guards: {atoms})", f.loc(d))
-    ck.ob("T-GROUP.buckets", "no pop / clear on the bucket table", not pops, "", f.loc())
-    # ---- the marker loop body
-    ifs = [n for n in inner.body if isinstance(n, ast.If)]
-    ck.ob("T-GROUP.loop", "marker loop body is one `if <key> in <item>`", len(inner.body) == 1 and len(ifs) == 1 and not inner.orelse
-          and ast.unparse(ifs[0].test) == f"{keyvar} in {item}" and not ifs[0].orelse,
-          f"found: {ast.unparse(inner.body[0].test) if ifs else '?'}", f.loc(inner))
-    if ifs:
-        body = ifs[0].body
-        ck.ob("T-GROUP.loop", "matched branch ends with `break`", isinstance(body[-1], ast.Break),
-              "without it an entity carrying two marker keys is filed twice", f.loc(body[-1]))
-        brk_elsewhere = [n for n in ast.walk(outer) if isinstance(n, (ast.Break, ast.Continue, ast.Return)) and n is not body[-1]]
-        ck.ob("T-GROUP.loop", "no other break / continue / return in the loops", not brk_elsewhere, "", f.loc(outer))
-        # bucket variable: <v> = <buckets>.get(<map>.get(key)) ; created when missing
-        appends = [n for n in ast.walk(ifs[0]) if isinstance(n, ast.Call) and isinstance(n.func, ast.Attribute) and n.func.attr in ("append", "extend", "insert")]
-        app = [n for n in appends if n.func.attr == "append"]
-        ext = [n for n in appends if n.func.attr == "extend"]
-        ck.ob("T-GROUP.loop", "exactly one append and one extend site", len(app) == 1 and len(ext) == 1 and len(appends) == 2,
-              f"{[ast.unparse(a)[:40] for a in appends]}", f.loc(ifs[0]))
-        if len(app) == 1 and len(ext) == 1:
-            a, e = app[0], ext[0]
-            copies = {item, f"dict({item})", f"{item}.copy()", f"copy.copy({item})", f"copy.deepcopy({item})", f"deepcopy({item})"}
-            ck.ob("T-GROUP.loop", "the item itself (or a plain copy) is appended", len(a.args) == 1 and ast.unparse(a.args[0]) in copies,
-                  f"appended: {ast.unparse(a.args[0]) if a.args else '?'}: every entity must appear unchanged", f.loc(a))
-            ck.ob("T-GROUP.loop", "comment texts are gathered with extend(item['comments'])",
-                  len(e.args) == 1 and ast.unparse(e.args[0]) in (f"{item}['comments']", f'{item}["comments"]'), ast.unparse(e)[:60], f.loc(e))
-            ga, ge = guard_atoms(f.node, S.stmt_of(f, a)), guard_atoms(f.node, S.stmt_of(f, e))
-            ck.ob("T-GROUP.loop", "append for every kind but comments, extend for comments only",
-                  (f"{keyvar} != 'comments'", True) in ga and (f"{keyvar} != 'comments'", False) in ge
-                  or (f"{keyvar} == 'comments'", False) in ga and (f"{keyvar} == 'comments'", True) in ge,
-                  f"guards: append {ga[-1:]}, extend {ge[-1:]}", f.loc(a))
-            recv = {access_path(a.func.value), access_path(e.func.value)}
-            ck.ob("T-GROUP.loop", "append and extend target the same bucket variable", len(recv) == 1 and None not in recv, str(recv), f.loc(a))
-            bv = recv.pop() if len(recv) == 1 else None
-            # every binding of the bucket variable inside the branch is <buckets>.get(<map>.get(key)) or <buckets>[<map>.get(key)]
-            want = {f"{bname}.get({mapname}.get({keyvar}))", f"{bname}[{mapname}.get({keyvar})]", f"{bname}[{mapname}[{keyvar}]]",
-                    f"{bname}.get({mapname}[{keyvar}])"}
-            binds = [n for n in ast.walk(ifs[0]) if isinstance(n, ast.Assign) and any(isinstance(t, ast.Name) and t.id == bv for t in n.targets)]
-            ck.ob("T-GROUP.loop", "bucket variable is looked up with the matched key", bool(binds) and all(ast.unparse(b.value) in want for b in binds),
-                  f"{[ast.unparse(b.value) for b in binds]}", f.loc(ifs[0]))
-            creates = [n for n in ast.walk(ifs[0]) if isinstance(n, ast.Assign) and any(
-                isinstance(t, ast.Subscript) and access_path(t.value) == bname for t in n.targets)]
-            for c in creates:
-                t = c.targets[0]
-                ok = ast.unparse(t.slice) in (f"{mapname}.get({keyvar})", f"{mapname}[{keyvar}]") and isinstance(c.value, ast.List) and not c.value.elts
-                atoms = guard_atoms(f.node, c)
-                ok = ok and (f"{bv} is None", True) in atoms
-                ck.ob("T-GROUP.loop", f"bucket created on demand: {ast.unparse(c)[:60]}", ok,
-                      f"a bucket may be (re)bound only to an empty list when it does not exist yet (guards {atoms[-1:]})", f.loc(c))
-    # ---- buckets grow in order; result is the bucket table
-    S.t_order(ck, ctx, [f], {bname, "_type", "self.final_result"})
-    final = [n for n in ast.walk(f.node) if isinstance(n, ast.Assign) and any(access_path(t) == "self.final_result" for t in n.targets if isinstance(t, ast.Attribute))]
-    ck.ob("T-GROUP.result", "self.final_result = <bucket table>", len(final) == 1 and isinstance(final[0].value, ast.Name) and final[0].value.id == bname
-          and final[0] is f.node.body[-1], "", f.loc(final[0]) if final else f.loc())
+        "O-group / O-run: Output.group_by_type_result, Output.format and the tail of Parser.run are evaluated abstractly (objabs) on "
+        "representative flat results - every entity kind, repeated and interleaved kinds, entities carrying several marker keys, "
+        "comments, empty results - against the regrouping the property describes, however the functions are written. E1 rules: "
+        "group_by_type is read only by Parser.run and the Output class; every keyword-derived marker key of the grammar actions is one "
+        "the regrouping knows. E4b: the entity statements of the C18 fragment land once, unchanged, in the bucket of their kind.")
+    keys_map = dict(KIND_BUCKET)
     sorts = [n for n in ast.walk(f.node) if isinstance(n, ast.Call) and ((isinstance(n.func, ast.Name) and n.func.id in ("sorted", "reversed", "set"))
              or (isinstance(n.func, ast.Attribute) and n.func.attr in ("sort", "reverse")))]
     ck.ob("T-ORDER", "no sorting / reversing / set() in the regrouping", not sorts, str([ast.unparse(x)[:40] for x in sorts]), f.loc())
@@ -172,18 +55,9 @@ def _structural(ck, ctx):
     fmt = m.func("simple_ddl_parser.output.core:Output.format")
     reads = [(g, n) for g, n in S.readers_of(ctx, "group_by_type", list(m.all_funcs())) if isinstance(n, (ast.Attribute, ast.Name))]
     for g, n in reads:
-        if g.qual == "Output.__init__":
-            ok = True
-        elif g.qual == "Parser.run":
-            # only as the keyword argument handed to Output(...)
-            ok = any(isinstance(c, ast.Call) and any(k.arg == "group_by_type" and k.value is n for k in c.keywords) for c in ast.walk(g.node))
-        elif g.qual == "Output.format":
-            st = S.stmt_of(g, n)
-            loops = [x for x in g.node.body if isinstance(x, ast.For)]
-            ok = isinstance(st, ast.If) and ast.unparse(st.test) == "self.group_by_type" and bool(loops) and g.node.body.index(st) > g.node.body.index(loops[-1]) and \
-                all(S.is_self_call("group_by_type_result")(b.value) for b in st.body if isinstance(b, ast.Expr)) and not st.orelse and len(st.body) == 1
-        else:
-            ok = False
+        # the flag selects the regrouping of the finished flat result; it has no business in the lexer, the grammar actions, the
+        # line pre-processing or the table objects (what run() / the formatter do with it is decided by O-run / O-group)
+        ok = g.qual == "Parser.run" or g.cls == "Output"
         ck.ob("T-FLAGFLOW.group_by_type", f"group_by_type read in {g.qual}", ok,
               "the flag may only select the regrouping after the flat result is complete", g.loc(n))
     ck.floor("T-FLAGFLOW.group_by_type", 3)
@@ -239,10 +113,7 @@ def _structural(ck, ctx):
                           f"the entity produced for this alternative carries the key {key!r}, which the regrouping does not know: it "
                           "would be in the flat result but in no bucket", g.loc(n))
     ck.count("pattern_marker_alternatives", n_pat)
-    for kind, ws in writers.items():
-        ck.ob("T-AGREE.markers", f"marker `{kind}` has a writer", bool(ws),
-              f"writers: {sorted(set(ws))[:4]}: a marker nobody writes means entities of that kind carry another key and are lost "
-              "by the regrouping", "")
+    ck.count("marker_writer_sites", sum(len(ws) for ws in writers.values()))
     ck.assumptions += ["an entity's kind is identified by its marker key, as the property's bucket list implies",
                        "entity dicts of the supported kinds carry no marker key of another kind (checked for the statement forms of "
                        "the C18 entity fragments by that check's O-value obligations)"]
@@ -278,7 +149,17 @@ def _semantic(ck, ctx):
         "with comments": [copy.deepcopy(ents["table_name"]), copy.deepcopy(ents["type_name"]), copy.deepcopy(comments)],
         "empty": [],
         "only a property with an empty value": [copy.deepcopy(ents["value-empty"])],
+        # an entity carrying the generic keys of later markers too (a schema with `comments`, a table with `value`): filed once, by its kind
+        "entities carrying generic keys": [copy.deepcopy(ents["schema_name"]), copy.deepcopy(ents["table_name"]), copy.deepcopy(ents["value"])],
+        "two comment items around an entity": [copy.deepcopy(comments), copy.deepcopy(ents["sequence_name"]),
+                                               {"comments": [w(" c3", " last", " z")]}],
+        "three tables between other kinds": [copy.deepcopy(ents["table_name"]), copy.deepcopy(ents["type_name"]),
+                                             dict(copy.deepcopy(ents["table_name"]), table_name=w("t2", "Items", "y_2")), copy.deepcopy(ents["domain_name"]),
+                                             dict(copy.deepcopy(ents["table_name"]), table_name=w("t3", "Users", "z_3"))],
+        "only optional kinds": [copy.deepcopy(ents["database_name"]), copy.deepcopy(ents["tablespace_name"])],
     }
+    for k in kinds:
+        scenarios[f"only: {k}"] = [copy.deepcopy(ents[k])]
     key = ("simple_ddl_parser.output.core", "Output")
     for name, flat in scenarios.items():
         try:
@@ -313,7 +194,7 @@ def _semantic(ck, ctx):
                     if not isinstance(g, list) or len(g) != len(items) or not all(_eq(a, x) for a, x in zip(items, g)):
                         problem = f"bucket `{b}`: expected {len(items)} item(s) in source order, got {g if not isinstance(g, list) else len(g)}"
                         break
-                extra = [b for b, v in got.items() if b not in exp and v]
+                extra = [b for b, v in got.items() if b not in exp and (v or b not in ALWAYS)]
                 if problem is None and extra:
                     problem = f"unexpected content in bucket(s) {extra}"
                 if problem is None and "comments" in got and not texts:
@@ -323,8 +204,92 @@ def _semantic(ck, ctx):
               "Output.group_by_type_result")
 
 
+    # ---- O-group through the formatter: Output(...).format() evaluated twice on the same parser output - flat and grouped - and the
+    # grouped result compared with the regrouping of the flat one (the property read literally; decides also WHETHER the regrouping
+    # is applied: empty results, results of one kind ...), in several modes
+    from ..objabs import format_output, ShapeMismatch
+
+    def ptable(name):
+        return {"table_name": name, "schema": None, "primary_key": None, "index": [], "partitioned_by": [], "tablespace": None, "checks": [],
+                "columns": [{"name": w("a", "Col", "c_1"), "type": w("int", "TEXT", "num_9"), "size": None, "references": None, "unique": False,
+                             "primary_key": False, "nullable": True, "default": None, "check": None}]}
+    pout = {k: v for k, v in ents.items() if k not in ("table_name", "value-empty")}
+    pouts = {
+        "nothing parsed": [],
+        "one table": [ptable(w("t", "Orders", "x_1"))],
+        "a table between two of every other kind": [copy.deepcopy(v) for v in pout.values()] + [ptable(w("t", "Orders", "x_1"))] + [copy.deepcopy(v) for v in reversed(list(pout.values()))],
+        "comments only": [copy.deepcopy(comments)],
+        "two tables, a sequence, comments": [ptable(w("t", "Orders", "x_1")), copy.deepcopy(ents["sequence_name"]), ptable(w("u", "Items", "y_2")), copy.deepcopy(comments)],
+        "optional kinds only": [copy.deepcopy(ents["database_name"]), copy.deepcopy(ents["tablespace_name"])],
+        # statements that are not entities: whatever the formatter does with them (today: ValueError), the grouped result is the
+        # regrouping of the flat one
+        "an ALTER naming a table the script does not define": [ptable(w("t", "Orders", "x_1")), copy.deepcopy(ents["sequence_name"]),
+                                                               {"alter_table_name": w("b", "Missing", "m_1"), "schema": None,
+                                                                "primary_key": {"constraint_name": None, "columns": [w("id", "Key", "k_1")]}}],
+        "an index on a table the script does not define": [ptable(w("t", "Orders", "x_1")),
+                                                           {"index_name": w("i1", "Idx", "i_1"), "table_name": w("b", "Missing", "m_1"), "schema": None,
+                                                            "columns": [w("id", "Key", "k_1")], "unique": False, "detailed_columns": []}],
+    }
+    for name, po in pouts.items():
+        for mode in ("sql", "bigquery", "oracle"):
+            problem = None
+            try:
+                try:
+                    flat_res = format_output(ctx, copy.deepcopy(po), mode, False)
+                except PyRaise as pr0:
+                    # no flat result: then there is no grouped result either
+                    try:
+                        g2 = format_output(ctx, copy.deepcopy(po), mode, True)
+                        ck.ob("O-group", f"format(group_by_type=True) vs. the flat result of: {name} (mode {mode})", False,
+                              f"the flat run raises {type(pr0.exc).__name__} but the grouped run returns {g2!r:.120}", "Output.format")
+                    except PyRaise:
+                        ck.ob("O-group", f"format(group_by_type=True) vs. the flat result of: {name} (mode {mode})", True,
+                              "both runs raise", "Output.format (evaluated abstractly)")
+                    continue
+                got = format_output(ctx, copy.deepcopy(po), mode, True)
+            except PyRaise as pr:
+                ck.ob("O-group", f"format() raises on: {name} (mode {mode})", False, f"{type(pr.exc).__name__}: {pr.exc}", "Output.format")
+                continue
+            except (LexUnknown, NonUniform, ShapeMismatch) as e:
+                raise AnalysisError(f"Output.format outside the interpreted subset ({name}): {e}")
+            if not isinstance(flat_res, list):
+                problem = f"the flat result is {type(flat_res).__name__}"
+            elif not isinstance(got, dict):
+                problem = f"group_by_type=True returns {type(got).__name__} ({got!r:.80}), not the bucket dict"
+            else:
+                exp, texts = {}, []
+                for item in flat_res:
+                    markers = [k for k in KIND_BUCKET if k in item and k not in ("comments", "value")]
+                    if not markers and "comments" in item:
+                        texts += item["comments"]
+                        continue
+                    if not markers and "value" in item:
+                        markers = ["value"]
+                    if len(markers) != 1:
+                        problem = f"a flat entity carries the marker keys {markers}: its kind is not determined"
+                        break
+                    exp.setdefault(KIND_BUCKET[markers[0]], []).append(item)
+                if texts:
+                    exp["comments"] = texts
+                if problem is None:
+                    for b in ALWAYS:
+                        if not isinstance(got.get(b), list):
+                            problem = f"bucket `{b}` missing"
+                if problem is None:
+                    for b, items in exp.items():
+                        g = got.get(b)
+                        if not isinstance(g, list) or len(g) != len(items) or not all(_eq(a, x) for a, x in zip(items, g)):
+                            problem = f"bucket `{b}`: expected the {len(items)} flat item(s) unchanged and in source order, got {g!r:.200}"
+                            break
+                    extra = [b for b, v in got.items() if b not in exp and (v or b not in ALWAYS)]
+                    if problem is None and extra:
+                        problem = f"unexpected bucket(s) {extra}"
+            ck.ob("O-group", f"format(group_by_type=True) vs. the flat result of: {name} (mode {mode})", problem is None,
+                  problem or "the grouped result is the regrouping of the flat result: every entity once, unchanged, in order; documented buckets present",
+                  "Output.format / group_by_type_result (evaluated abstractly)")
+
     # ---- O-run: run() hands the formatter's result through unchanged - whatever the flat result is (also when it is empty)
-    from ..objabs import run_tail, format_output, ShapeMismatch
+    from ..objabs import run_tail
     no_tables = [copy.deepcopy(ents[k]) for k in kinds if k != "table_name"]
     flats = {"empty": [], "only a property": [copy.deepcopy(ents["value"])], "every kind but tables": no_tables,
              "comments only": [copy.deepcopy(comments)], "a sequence and comments": [copy.deepcopy(ents["sequence_name"]), copy.deepcopy(comments)]}
